@@ -7,6 +7,7 @@ CONSTANTS
   MaxTests = 3
   MaxTags = 1
   MaxTime = 1
+  MaxRuns = 1
 CONSTRAINT ExportC
 CONSTRAINT FirstIsT1
 CONSTRAINT NotBoth
